@@ -762,11 +762,22 @@ def pncbo(op, ifile1, ifile2, coordkeys=None, verbose=0):
             unit1 = getattr(in1var, 'units', 'unknown')
             unit2 = getattr(in2var, 'units', 'unknown')
             propd['units'] = '(%s) %s (%s)' % (unit1, op, unit2)
+            # masks of the operands (and of masked-array domain errors)
+            # are kept; non-finite results are masked in addition
             outval = np.ma.masked_invalid(
-                eval('in1var[...] %s in2var[...]' % op).view(np.ndarray))
+                eval('in1var[...] %s in2var[...]' % op))
+            fill_value = -999
+            try:
+                np.asarray(fill_value, dtype=outval.dtype)
+            except (OverflowError, ValueError, TypeError):
+                # e.g., unsigned integer results cannot hold -999
+                if outval.dtype.kind in 'iu':
+                    fill_value = np.iinfo(outval.dtype).max
+                else:
+                    fill_value = np.ma.default_fill_value(outval)
             outvar = tmpfile.createVariable(
-                k, in1var.dtype.char, in1var.dimensions, fill_value=-999,
-                values=outval)
+                k, in1var.dtype.char, in1var.dimensions,
+                fill_value=fill_value, values=outval)
             outvar.setncatts(propd)
     return tmpfile
 
